@@ -257,7 +257,8 @@ class Terms:
             left, op, right = e.left, e.ops[0], e.comparators[0]
             if isinstance(op, (ast.Is, ast.IsNot)) and isinstance(right, ast.Constant) and right.value is None:
                 t = simp(self.truth(left, ctx, depth + 1))
-                if not atoms_in(t):
+                if not atoms_in(t) or matches_in(t):
+                    # the values in question (match objects, compiled patterns, None) are truthy exactly when they are not None
                     return t if isinstance(op, ast.IsNot) else ("not", t)
                 return ("atom", norm(e, 60))
             if isinstance(left, ast.Call) and isinstance(left.func, ast.Name) and left.func.id == "len" and len(left.args) == 1 and isinstance(right, ast.Constant) and isinstance(right.value, int):
@@ -306,15 +307,12 @@ class Terms:
         if fname == "bool" and len(e.args) == 1:
             return self.truth(e.args[0], ctx, depth + 1)
         if fname in ("list", "tuple", "set", "frozenset", "sorted") and len(e.args) == 1:
-            a = e.args[0]
+            a, actx = self._comprehension(e.args[0], ctx)
             if isinstance(a, (ast.GeneratorExp, ast.ListComp, ast.SetComp)):
-                return self.exists(a.generators, None, ctx, depth)
-            return self.truth(a, ctx, depth + 1)
+                return self.exists(a.generators, None, actx, depth)
+            return self.truth(a, actx, depth + 1)
         if fname == "any" and len(e.args) == 1:
-            a = e.args[0]
-            if isinstance(a, ast.Name) and ctx.env.get(a.id, ("",))[0] == "expr":
-                b = ctx.env[a.id]
-                a, ctx = b[1], b[2]
+            a, ctx = self._comprehension(e.args[0], ctx)
             if isinstance(a, (ast.GeneratorExp, ast.ListComp, ast.SetComp)):
                 return self.exists(a.generators, a.elt, ctx, depth)
             if isinstance(a, ast.Call) and isinstance(a.func, ast.Name) and a.func.id == "map" and len(a.args) == 2:
@@ -323,12 +321,13 @@ class Terms:
                 body = self.apply(a.args[0], [("var", vid, "x")], ctx, depth, e)
                 return ("exists", vid, it, body, "x")
             return ("atom", norm(e, 60))
-        if fname == "next" and e.args and isinstance(e.args[0], (ast.GeneratorExp, ast.ListComp)):
-            g = e.args[0]
-            found = self.exists(g.generators, g.elt, ctx, depth)
-            if len(e.args) == 2:
-                dflt = self.truth(e.args[1], ctx, depth + 1)
-                return ("or", [found, ("and", [("not", self.exists(g.generators, None, ctx, depth)), dflt])])
+        if fname == "next" and e.args:
+            g, gctx = self._comprehension(e.args[0], ctx)
+            if isinstance(g, (ast.GeneratorExp, ast.ListComp)):
+                found = self.exists(g.generators, g.elt, gctx, depth)
+                if len(e.args) == 2:
+                    dflt = self.truth(e.args[1], ctx, depth + 1)
+                    return ("or", [found, ("and", [("not", self.exists(g.generators, None, gctx, depth)), dflt])])
             return ("atom", norm(e, 60))
         if ln in REGEX_FUNCS and len(e.args) >= 2:
             return ("match", ln[3:], self.origin(e.args[0], ctx), self.origin(e.args[1], ctx), e, ctx.fi, len(e.args) > 2 or bool(e.keywords))
@@ -355,6 +354,20 @@ class Terms:
             if len(args) == len(e.args) and not e.keywords:
                 return self.returns_truth(h, args, depth + 1, argexprs=[(a, ctx) for a in e.args])
         return ("atom", norm(e, 60))
+
+    def _comprehension(self, a: ast.expr, ctx: Ctx, depth: int = 0):
+        """The comprehension an argument denotes: written in place, held by a local (`matching = (p for p in ... if ...)`), or wrapped
+        in iter() / list() / tuple()."""
+        if depth > 6:
+            return a, ctx
+        if isinstance(a, ast.Name):
+            b = ctx.env.get(a.id)
+            if b is not None and b[0] == "expr":
+                return self._comprehension(b[1], b[2], depth + 1)
+            return a, ctx
+        if isinstance(a, ast.Call) and isinstance(a.func, ast.Name) and a.func.id in ("iter", "list", "tuple") and len(a.args) == 1 and not a.keywords:
+            return self._comprehension(a.args[0], ctx, depth + 1)
+        return a, ctx
 
     def apply(self, fexpr: ast.expr, origins: list, ctx: Ctx, depth: int, node):
         if isinstance(fexpr, ast.Lambda) and len(fexpr.args.args) == len(origins):
@@ -721,6 +734,15 @@ def run(repo: Repo, res: Result, rule: str, filter_cls: ClassInfo, pred: str) ->
                 continue
             # exact shape: exists p in self.A: match(p, subject)
             ok_shape = t[0] == "exists" and t[3][0] == "match" and t[3][2][:2] == ("var", t[1]) and t[2][0] == "attr"
+            if not ok_shape and t[0] == "exists" and t[3][0] == "and" and len(t) > 4:
+                # extra conditions next to the match that only talk about the pattern variable: some patterns are never applied
+                body_ms = [x for x in t[3][1] if x[0] == "match"]
+                extra = [x for x in t[3][1] if x[0] != "match"]
+                import re as _re
+
+                if len(body_ms) == 1 and extra and all(x[0] == "atom" and t[4] in _re.findall(r"[A-Za-z_][A-Za-z_0-9]*", x[1]) for x in extra):
+                    bad = f"the patterns are additionally filtered by `{extra[0][1]}` before they are applied: not every configured pattern takes part in the exclusion"
+                    break
             if not ok_shape:
                 if atoms_in(t):
                     und = und or f"the result `{show_term(t)[:200]}` is not of the form `exists p in <patterns>: match(p, path)` and contains parts the analysis cannot interpret"
